@@ -15,6 +15,10 @@ class CancelScenario(FaultEnumScenario):
         return {"op": "cancel", "patterns": patterns, "force": force, "answer": answer, "cwd": self.knobs["cwd"]}
 
     def enumerate_faults(self, seams):
+        if self.knobs["backend"] == "local":
+            # the wire protocol has no reply to cancel_task: there is no per-request failure to inject
+            self.extra["scenarios_with_accepted_jobs"] = 1
+            return []
         exe = CANCEL_EXE[self.knobs["backend"]]
         n = sum(1 for k, d, s in seams if k == "cmd:" + exe)
         faults = []
@@ -47,8 +51,10 @@ class CancelScenario(FaultEnumScenario):
         pre_latest = dict(w.latest)
         pre_phase = {}
         for n in selected:
-            j = w.job_of(n)
-            pre_phase[n] = None if j is None else j.phase
+            ref = w.jref(n)
+            pre_phase[n] = None if ref is None else w.job_phase(ref)
+        if w.local is not None:
+            w.local.cancel_log = []
         res = w.gwf(argv, op.get("cwd", "root"), stdin=stdin, cmd_faults=fault.get("cmd_faults", ()))
         facets = dict(interruption=op.get("fault_class", "none"))
         if declined:
@@ -62,11 +68,14 @@ class CancelScenario(FaultEnumScenario):
                    f"{(res.output or '')[-200:]}", **facets)
             return res
         # ids the scheduler was asked to cancel: all cancel commands of this invocation (also failed ones)
-        exe = CANCEL_EXE[w.backend]
         asked = []
-        for e, args, rc in res.cmd_log:
-            if e == exe:
-                asked.extend(a for a in args if not a.startswith("-"))
+        if w.local is not None:
+            asked = list(w.local.cancel_log)
+        else:
+            exe = CANCEL_EXE[w.backend]
+            for e, args, rc in res.cmd_log:
+                if e == exe:
+                    asked.extend(a for a in args if not a.startswith("-"))
         allowed = {pre_latest[n] for n in selected if n in pre_latest}
         required = {pre_latest[n] for n in selected if pre_phase.get(n) in ("pending", "running")}
         w.probe("cancel_commands", len(asked))
@@ -89,7 +98,7 @@ class CancelScenario(FaultEnumScenario):
         out = res.output or ""
         for n in selected:
             jid = pre_latest.get(n)
-            uncancellable = jid is None or pre_phase.get(n) == "done" or jid in failed_ids
+            uncancellable = jid is None or ((pre_phase.get(n) == "done" or jid in failed_ids) and w.local is None)
             if uncancellable and f"Target {n} could not be cancelled" not in out:
                 w.flag("C17", "failure_not_reported", f"{n} (job {jid}, {pre_phase.get(n)}) could not be cancelled but "
                        f"gwf did not say so", **facets)
@@ -101,6 +110,8 @@ class CancelScenario(FaultEnumScenario):
             return res
         if w.cluster is not None and w.cluster.flavour == "slurm" and w.cluster.acct_lag:
             w.cluster.acct_flush()  # "once the scheduler has carried out the cancellations"
+        if w.local is not None:
+            w.local.settle_timers()
         exp = w.m_status()
         r1 = w.gwf(["status"], "root")
         if r1.exit_code == 0 and r1.exception is None:
